@@ -47,6 +47,11 @@ CHECKS = {
          'Seeded search over op sequences of up to 25 operations with grid invariants after every op and op-specific reference checks (extension leaves classes untouched, third moment preserved on covering re-mesh, maxBins respected, reset/revert restore, moment functions depend only on the supplied distribution).',
          'Admissible PBM configurations only; revert only after a backup; PSD recording is not part of C08. Known finding: coarsening re-mesh can drop a sparse distribution entirely.',
          'DESIGN.md 4/C08'),
+ 'C09': ('exploration', 1500, 7200,
+         'deterministic simulation of query histories on real thermodynamics objects with cache drops as faults: warm object vs fresh twin per query, immediate repetition, batched vs single, argument immutability; HashTable op machine against an exact-integer reference table; diffusion runs with the cache off/on in situ',
+         'Every query of every seeded history (Al-Zr binary, Ni-Cr-Al ternary; four driving-force methods; interfacial composition, curvature, growth, impingement, diffusivities; T jumps up to 300 K, jumps across the solvus, removeCache either way, interleaved clearCache) is compared with a cold twin; HashTable soundness and switch-off checked op by op and in running diffusion models.',
+         'Real databases only (the stub backend is irrelevant here). Tolerance 1e-7 relative. Known finding: warm start on the ordered FCC_L12 precipitate after a large jump.',
+         'DESIGN.md 4/C09'),
  'C11': ('exploration', 1500, 7200,
          'differential deterministic simulation: worlds built from one record that differ only in the order of the phase list (all permutations) or of the solute elements, stepped and compared step by step with a local-jump rule',
          'Phase order: every permutation of 2-3 phases of stub ternary worlds (real Al-Mg-Si in the thorough tier) compared over the whole history (time grid and permuted per-phase histories). Element order: six query kinds of the real Ni-Cr-Al database at seeded points compared as permuted images; paired diffusion runs with permuted element lists.',
